@@ -174,6 +174,9 @@ func freshChild() {
 	sc.Buffer(make([]byte, 1<<20), 1<<20)
 	w := bufio.NewWriter(os.Stdout)
 	defer w.Flush()
+	if len(os.Args) > 2 && os.Args[2] == "hostseed" {
+		fmt.Fprintf(w, "HOSTSEED %d\n", rng.FixedIntVH(math.MaxInt32))
+	}
 	for sc.Scan() {
 		p, err := trafficpattern.Decode(strings.TrimSpace(sc.Text()))
 		if err != nil {
@@ -205,6 +208,108 @@ func freshEval(ps []*pb.TrafficPattern) []string {
 		panic(fmt.Sprintf("fresh child printed %d lines for %d inputs", len(lines), len(ps)))
 	}
 	return lines
+}
+
+const otherHostName = "c16-another-host"
+
+// otherHostEval evaluates the patterns in one fresh process that runs under a DIFFERENT host name (private UTS
+// namespace: unshare -u; hostname). The first output line is the child's host-derived default seed. ok=false when the
+// sandbox does not permit it.
+func otherHostEval(ps []*pb.TrafficPattern) (lines []string, childHostSeed string, ok bool) {
+	exe, err := os.Executable()
+	if err != nil {
+		panic(err)
+	}
+	var in bytes.Buffer
+	for _, p := range ps {
+		in.WriteString(trafficpattern.Encode(p) + "\n")
+	}
+	cmd := exec.Command("unshare", "-u", "sh", "-c", "hostname "+otherHostName+" && exec \"$0\" c16fresh hostseed", exe)
+	cmd.Stdin = &in
+	out, err := cmd.Output()
+	if err != nil {
+		return nil, "", false
+	}
+	all := strings.Split(strings.TrimRight(string(out), "\n"), "\n")
+	if len(all) != len(ps)+1 || !strings.HasPrefix(all[0], "HOSTSEED ") {
+		return nil, "", false
+	}
+	return all[1:], strings.TrimPrefix(all[0], "HOSTSEED "), true
+}
+
+// stripSeed removes the echoed seed token of an "OK <pattern> V k" line (first pattern token).
+func sameButSeed(a, b string) bool {
+	fa, fb := strings.Fields(a), strings.Fields(b)
+	if len(fa) != len(fb) || len(fa) < 3 {
+		return false
+	}
+	for i := range fa {
+		if i != 1 && fa[i] != fb[i] {
+			return false
+		}
+	}
+	return true
+}
+
+// explicitSeedCases: an explicit seed - 0 included - decides the implicit values alone: the same message gives the
+// same effective pattern on a machine with another host name, and it does not behave like an unset seed.
+func (d *drv) explicitSeedCases() {
+	r := d.r
+	bp := func(b bool) *bool { return &b }
+	ip := func(i int32) *int32 { return &i }
+	rg := r.Rng.Fork()
+	seeds := []int32{0, 1, -1, math.MaxInt32, math.MinInt32, 2, 7}
+	nmask := 10
+	if r.Thorough() {
+		nmask = 60
+	}
+	var ps []*pb.TrafficPattern
+	for _, s := range seeds {
+		for _, u := range []*bool{nil, bp(false), bp(true)} {
+			ps = append(ps, &pb.TrafficPattern{Seed: ip(s), UnlockAll: u})
+			for k := 0; k < nmask; k++ {
+				mask := rg.Intn(1 << 11)
+				if k == 0 {
+					mask = 1<<11 - 1
+				}
+				ps = append(ps, build(rg, mask, 1+k%3, ip(s), u, k%2 == 0))
+			}
+		}
+	}
+	// (1) not like an unset seed (in this process; the host-derived seed differs from every boundary seed used)
+	for _, s := range seeds {
+		if int(s) == d.hostSeed {
+			continue
+		}
+		for _, u := range []*bool{nil, bp(true)} {
+			with := evalTokens(&pb.TrafficPattern{Seed: ip(s), UnlockAll: u})
+			without := evalTokens(&pb.TrafficPattern{UnlockAll: u})
+			r.Count("explicit-seed-vs-unset")
+			if sameButSeed(with, without) {
+				r.Fail("explicit-seed-treated-as-unset", fmt.Sprintf("explicit seed %d gives exactly the implicit values of an unset seed (host-derived seed %d): %q", s, d.hostSeed, with),
+					map[string]interface{}{"seed": s, "unlockAll": ob(u), "input": encAll([]*pb.TrafficPattern{{Seed: ip(s), UnlockAll: u}})})
+			}
+		}
+	}
+	// (2) same result under another host name
+	other, childSeed, ok := otherHostEval(ps)
+	if !ok {
+		r.Rep.Notes["other_host"] = "unshare -u / hostname not permitted here: the other-host comparison was skipped"
+		return
+	}
+	r.Rep.Notes["other_host"] = fmt.Sprintf("fresh process under host name %s (host-derived seed %s; here %d): %d explicit-seed inputs compared", otherHostName, childSeed, d.hostSeed, len(ps))
+	if childSeed == fmt.Sprint(d.hostSeed) {
+		r.Rep.Notes["other_host"] += " (WARNING: same host-derived seed, comparison is weak)"
+	}
+	for i, p := range ps {
+		here := evalTokens(proto.Clone(p).(*pb.TrafficPattern))
+		r.Count("explicit-seed-other-host")
+		r.Distinct(fmt.Sprintf("otherhost/%d/%s/%s", p.GetSeed(), ob(p.UnlockAll), explicitMask(p)))
+		if here != other[i] {
+			r.Fail("explicit-seed-depends-on-host", fmt.Sprintf("explicit seed %d: this host %q, host %s %q", p.GetSeed(), here, otherHostName, other[i]),
+				map[string]interface{}{"seed": p.GetSeed(), "input": encAll([]*pb.TrafficPattern{p}), "other_host_name": otherHostName})
+		}
+	}
 }
 
 func encAll(ps []*pb.TrafficPattern) []string {
@@ -788,6 +893,10 @@ func main() {
 		d.historyGroup(&pb.TrafficPattern{Seed: s, Nonce: &pb.NoncePattern{MaxLen: ip(int32(i % 13))}}, &pb.TrafficPattern{Seed: s, UnlockAll: bp(true)}, "explicit-maxlen-locked-vs-unlocked", i%2 == 0)
 	}
 
+	// ---------- an explicit seed (0 included) decides alone; other host name
+	r.Rep.Notes = map[string]string{}
+	d.explicitSeedCases()
+
 	// ---------- corpus: the C16 witness first (explicit maxLen below the implicit minLen)
 	d.genCase(&pb.TrafficPattern{Seed: ip(1), Nonce: &pb.NoncePattern{MaxLen: ip(3)}}, true, "corpus")
 	for _, s := range vSeed {
@@ -1160,10 +1269,12 @@ func main() {
 	qn(math.MaxInt32)
 	r.Count("isqrt")
 	r.Distinct("Q/all")
-	r.Rep.Notes = map[string]string{
+	for k, v := range map[string]string{
 		"host_seed":    fmt.Sprint(d.hostSeed),
 		"round_trip":   "Decode(Encode(p)) == p is a test of google.golang.org/protobuf + encoding/base64 (library round trip): tested on every valid original and effective pattern, not proved",
 		"oracle_seeds": fmt.Sprint(len(d.seenSeed)),
+	} {
+		r.Rep.Notes[k] = v
 	}
 }
 
